@@ -23,6 +23,7 @@ BIG = 1.0e6                    # target side exchange() timeout (the spec assume
 K_ACK = "OneFaultOk:corrupted-ACK-while-initiator-chains:NAK-answered-by-ACK-rejected"
 K_ATN = "OneFaultOk:DID-in-use:ATN-sent-without-DID-is-ignored-by-target"
 K_MIU = "FrameFits:target-frame-with-DID-exceeds-LRi-by-1"
+K_DID0 = "OneFaultOk:did=0:initiator-sends-DID-byte-0-after-announcing-no-DID:target-ignores-every-PDU"
 K_LEN = "OnlyCommErr:Target.exchange-raised-Other:struct.error"        # LEN byte 256 (DID, LRi=254)
 
 
@@ -177,7 +178,11 @@ class Conversation(object):
         lr_t = LR[(atr_res[k + 16] >> 4) & 3]
         self.tick = ini.rwt / R_TICKS
         self.t0 = air.clock.now
-        self.const = dict(lrI=lr_i, lrT=lr_t, did=cfg.get("did") is not None, nad=cfg.get("nad") is not None,
+        did = cfg.get("did")
+        # did: the initiator was given a DID (it then sends a DID byte, also for 0); tdid: the ATR_REQ carries a
+        # DID > 0, i.e. the target holds one; did0: a DID of 0 ("no DID" in the ATR_REQ) was configured
+        self.const = dict(lrI=lr_i, lrT=lr_t, did=did is not None, tdid=bool(did), did0=did == 0,
+                          nad=cfg.get("nad") is not None,
                           miuI=ini.miu, miuT=None, R=R_TICKS, brty=ini.target.brty)
         if isinstance(self.fates, (list, tuple)):
             air.script(self.fates)
@@ -202,7 +207,7 @@ class Conversation(object):
 
     def _target(self):
         tgt = self.tgt
-        self.tmiu = LR[self.cfg.get("lri", 3)] - 3
+        self.tmiu = LR[self.cfg.get("lri", 3)] - 3 - bool(self.cfg.get("did"))
         if tgt.activate(timeout=10.0, lrt=self.cfg.get("lrt", 3), rwt=self.cfg.get("wt", 8)) is None:
             if not self.recording:
                 raise RuntimeError("target activation failed")
@@ -252,7 +257,9 @@ class Conversation(object):
         return self
 
     def trace(self):
-        return dict(id=self.cid, const={k: v for k, v in self.const.items() if k != "brty"}, ev=self.ev)
+        nad = self.cfg.get("nad")
+        return dict(id=self.cid, const={k: v for k, v in self.const.items() if k != "brty"}, ev=self.ev,
+                    nadv="none" if nad is None else "0" if nad == 0 else ">0")
 
 
 def run_spec(spec):
@@ -262,8 +269,9 @@ def run_spec(spec):
 
 # ------------------------------------------------------------------ conversation generators
 def miu_of(cfg):
+    """the MIUs by the protocol rule (payload limit of the receiver minus the header bytes that are sent)"""
     mi = LR[cfg.get("lrt", 3)] - 3 - (cfg.get("did") is not None) - (cfg.get("nad") is not None)
-    mt = LR[cfg.get("lri", 3)] - 3
+    mt = LR[cfg.get("lri", 3)] - 3 - bool(cfg.get("did"))
     return mi, mt
 
 
@@ -274,7 +282,7 @@ def boundary_sizes(miu):
 
 CONFIGS = [
     dict(lri=3, lrt=3, did=None, nad=None, brs=0, tech="A"),
-    dict(lri=0, lrt=0, did=None, nad=None, brs=1, tech="A"),
+    dict(lri=0, lrt=0, did=None, nad=0, brs=1, tech="A"),
     dict(lri=1, lrt=2, did=None, nad=None, brs=2, tech="A"),
     dict(lri=2, lrt=1, did=None, nad=7, brs=2, tech="F"),
     dict(lri=0, lrt=3, did=None, nad=None, brs=1, tech="F"),
@@ -323,6 +331,23 @@ def systematic_specs(tier):
     return out
 
 
+def boundary_specs(tier):
+    """fault-free conversations exactly at the frame size limits: {no DID, DID 0, DID > 0} x {no NAD, NAD 0, NAD > 0}
+    x LR 64/128/192/254 for each role (equal and crossed LRi/LRt), payloads k*miu-1, k*miu, k*miu+1 both ways"""
+    out = []
+    for di, did in enumerate((None, 0, 3)):
+        for ni, nad in enumerate((None, 0, 5)):
+            for lr in range(4):
+                for cross in (False, True):
+                    cfg = dict(lri=lr, lrt=(3 - lr) if cross else lr, did=did, nad=nad, brs=(lr + di + ni) % 3, tech="A")
+                    mi, mt = miu_of(cfg)
+                    ex = [(mi - 1, 5, mt - 1), (mi, 5, mt), (mi + 1, 5, mt + 1), (2 * mi, 5, 2 * mt - 1),
+                          (2 * mi + 1, 5, 2 * mt), (3 * mi - 1, 5, 3 * mt + 1), (3 * mi, 5, 3 * mt)]
+                    out.append(dict(id="b%d.%d.%d.%d" % (di, ni, lr, int(cross)), cfg=cfg,
+                                    plan=dict(ex=ex, release="RLS" if lr % 2 else "DSL"), fates=[]))
+    return out
+
+
 def random_specs(tier, seed):
     """(b) long random conversations, fault rate 0..30 %"""
     rnd = random.Random(seed * 7919 + 17)
@@ -335,8 +360,10 @@ def random_specs(tier, seed):
             cfg.update(lri=rnd.randrange(4), lrt=rnd.randrange(4), brs=rnd.randrange(3))
             if cfg["tech"] == "F" and cfg["brs"] == 0:
                 cfg["brs"] = 1
-        if rnd.random() < 0.7:
-            cfg["did"] = None          # most long conversations without DID (with DID any lost frame ends them)
+        if rnd.random() < 0.3:
+            cfg["nad"] = rnd.choice([None, 0, 0, 9])
+        if rnd.random() < 0.15:
+            cfg["did"] = rnd.choice([0, 1, 14])
         mi, mt = miu_of(cfg)
         long_one = j % 5 == 0
         nex = (rnd.choice([100, 150, 200]) if quick else rnd.choice([150, 300, 400])) if long_one else rnd.choice([5, 20, 40])
@@ -362,6 +389,10 @@ def record_all(specs, procs=12):
 
 
 # ------------------------------------------------------------------ verdicts
+def nad_tag(tr):
+    return tr.get("nadv", tr["const"]["nad"])
+
+
 def classify(tr, verdict):
     """canonical key of a rejection (never the seed / trace id)"""
     line, act, why = verdict[1], verdict[2], verdict[3]
@@ -372,7 +403,16 @@ def classify(tr, verdict):
         names = list(why[1])
         keys = []
         for n in names:
-            if n == "OneFaultOk":
+            if n == "MiuOk":
+                d = why[2] if len(why) > 2 else {}
+                who = [w for w, a, b in (("initiator", "miuI", "expI"), ("target", "miuT", "expT")) if d.get(a) != d.get(b)]
+                c = tr["const"]
+                keys.append("MiuOk:%s-MIU-is-not-LR-minus-header:did=%s:nad=%s:off-by=%s" % (
+                    "+".join(who), "0" if c["did0"] else c["did"], nad_tag(tr),
+                    ",".join(str(d.get(a, 0) - d.get(b, 0)) for w, a, b in (("i", "miuI", "expI"), ("t", "miuT", "expT")) if d.get(a) != d.get(b))))
+            elif n == "OneFaultOk" and tr["const"]["did0"]:
+                keys.append(K_DID0)
+            elif n == "OneFaultOk":
                 # the frames of the failing step: back to the last ICall / the last new request
                 frames = [x for x in ev[:line] if x["a"] == "Frame"]
                 lastf = frames[-1]
@@ -389,12 +429,13 @@ def classify(tr, verdict):
                 if d.get("dir") == "TI" and d.get("did") and d.get("size") == c["lrI"] + 1 and c["miuT"] == c["lrI"] - 3:
                     keys.append(K_MIU)
                 else:
-                    keys.append("FrameFits:%s-%s:size=%s:lrI=%s:lrT=%s" % (d.get("dir"), d.get("t"), d.get("size"),
-                                                                         c["lrI"], c["lrT"]))
+                    lim = c["lrT"] if d.get("dir") == "IT" else c["lrI"]
+                    keys.append("FrameFits:%s-%s:exceeds-LR-by-%s:did=%s:nad=%s" % (
+                        d.get("dir"), d.get("t"), d.get("size", 0) - lim, "0" if c["did0"] else c["did"], nad_tag(tr)))
             else:
                 keys.append("inv:%s@%s" % (n, act))
         return keys
-    if kind == "result" and act == "IErr" and str(e.get("kind", "")).startswith(("Other", "Transmission", "Communication", "BrokenLink")):
+    if kind in ("result", "guard") and act == "IErr" and str(e.get("kind", "")).startswith(("Other", "Transmission", "Communication", "BrokenLink")):
         return ["OnlyCommErr:Initiator.exchange-raised-%s" % e["kind"]]
     if kind == "guard" and act == "TEnd" and str(e.get("kind", "")).startswith("Other"):
         return ["OnlyCommErr:Target.exchange-raised-%s" % e["kind"]]
@@ -450,7 +491,7 @@ def judge(ck, traces, specs, verdicts):
 
 
 # ------------------------------------------------------------------ the check
-MC_INVS = ["ExactlyOnce", "Intact", "OnlyCommErr", "FrameFits", "OneFaultOk", "TargetOk", "PniInSync"]
+MC_INVS = ["MiuOk", "ExactlyOnce", "Intact", "OnlyCommErr", "FrameFits", "OneFaultOk", "TargetOk", "PniInSync"]
 WITNESSES = ["W_Retx", "W_Atn", "W_Nak", "W_NakAck", "W_ChainBoth", "W_Wrap", "W_ErrTimeout", "W_ErrProto",
              "W_Release", "W_Absorbed"]
 
@@ -474,10 +515,11 @@ def run(tier, seed):
     # ... and of the code as it is: the counterexamples TLC finds here are only *predictions*; they become
     # findings when the conformance stage below reproduces them on the real objects.
     a = tlc.run("MC_NfcDep.tla", "MC_NfcDep_asis.cfg", PID + "_asis", workers=8, timeout=300)
-    ck.cover(asis_model_violates=sorted(a.violated))
+    d0 = tlc.run("MC_NfcDep.tla", "MC_NfcDep_did0.cfg", PID + "_did0", workers=4, timeout=300)
+    ck.cover(asis_model_violates=sorted(a.violated), did0_model_violates=sorted(d0.violated))
 
     # 2. conformance: real conversations -> Trace_NfcDep
-    specs = systematic_specs(tier) + random_specs(tier, seed)
+    specs = boundary_specs(tier) + systematic_specs(tier) + random_specs(tier, seed)
     recs = record_all(specs)
     traces = [t for t, _ in recs]
     self_t = mutate_for_selftest(next(t for t in traces if any(e["a"] == "TRet" for e in t["ev"]) and len(t["ev"]) > 12))
@@ -495,6 +537,7 @@ def run(tier, seed):
              long_random_conversations=sum(1 for s in specs if s["id"][0] == "r"),
              exchanges_recorded=sum(1 for t in traces for e in t["ev"] if e["a"] == "ICall"),
              bit_rates=brty, configurations=len(CONFIGS),
+             boundary_conversations=sum(1 for s in specs if s["id"][0] == "b"),
              binding_selftest="wrong PNI, dropped frame and altered payload signature all rejected")
     ck.sample(dict(trace=traces[0]["id"], const=traces[0]["const"], first_events=traces[0]["ev"][:5]))
     ck.sample(dict(mc="MC_NfcDep", distinct=r.distinct, depth=r.depth, asis_violations=sorted(a.violated)))
